@@ -331,3 +331,62 @@ def flow_case(L, c, dec, front, prim):
     vals = [G, t, m] + [get(n) for n in ("a", "P", "e", "inc", "Omega", "omega", "pomega", "f", "M", "E", "l", "theta", "T")]
     return "(flow_particle %s %s %s %s %s %d %d %s)" % ("true" if front == "py" else "false", R.coq(), two, vlib.flist(prim),
                                                        "true" if afp else "false", pe, an, vlib.flist([float(x) for x in vals]))
+
+
+# ----------------------------------------------------------------------------- orbits of particles that live in simulations
+def _orbit_list(o):
+    return [0.0] + [getattr(o, f) for f in ORBIT_FIELDS] + [o.hvec.x, o.hvec.y, o.hvec.z, o.evec.x, o.evec.y, o.evec.z]
+
+
+def gen_sim_cases(L, rng, n):
+    """particles in simulations whose clock is not zero (set directly, or reached by integrate), read through every
+    route: p.orbit() (default Jacobi primary, sim pointer NULL), p.orbit(primary=particles[0]) (primary in the
+    simulation), sim.orbits(), reb_orbit_from_particle (C).  Model: orbit_from_particle_sim with the particle's clock."""
+    import c11_search as S
+    H = vlib.fhex
+    D = ctypes.c_double
+    rb = L.rebound
+    clib = L.clib
+    clib.reb_orbit_from_particle.restype = rb.Orbit
+    clib.reb_orbit_from_particle.argtypes = [D, rb.Particle, rb.Particle]
+    clib.reb_simulation_jacobi_com.restype = rb.Particle
+    cases = []
+    for i in range(n):
+        t = rng.choice([12.5, -3.0, rng.uniform(-20, 20), 0.0])
+        mode = ("set", "integrate")[i % 2]
+        sim = rb.Simulation()
+        sim.G = rng.choice([1.0, 39.47841760435743])
+        if mode == "set":
+            sim.t = t
+        sim.add(m=rng.uniform(0.5, 2), x=rng.gauss(0, 1), vy=rng.gauss(0, 0.1))
+        hyper = rng.random() < 0.2
+        e = rng.uniform(1.1, 3) if hyper else rng.uniform(0, 0.9)
+        sim.add(m=rng.choice([0.0, 1e-3]), a=(-1 if hyper else 1) * rng.uniform(0.5, 3), e=e, inc=rng.uniform(0, math.pi),
+                Omega=rng.uniform(0, 6.28), omega=rng.uniform(0, 6.28), f=rng.uniform(-1, 1) if hyper else rng.uniform(0, 6.28))
+        if rng.random() < 0.5:
+            sim.add(m=1e-4, a=rng.uniform(5, 9), e=rng.uniform(0, 0.3), inc=rng.uniform(0, 0.5), f=rng.uniform(0, 6.28))
+        if mode == "integrate":
+            sim.integrator = rng.choice(["ias15", "whfast"])
+            sim.dt = 0.01 * (1 if t >= 0 else -1)
+            sim.integrate(t)
+        ps = sim.particles
+        idx = rng.randrange(1, sim.N)
+        p = ps[idx]
+        pl = [p.m, p.x, p.y, p.z, p.vx, p.vy, p.vz]
+        jc = clib.reb_simulation_jacobi_com(ctypes.byref(p))
+        routes = [("p.orbit()", jc, p.orbit(), []),
+                  ("p.orbit(primary=particles[0])", ps[0], p.orbit(primary=ps[0]), [sim.t]),
+                  ("sim.orbits()", None, sim.orbits()[idx - 1], []),
+                  ("reb_orbit_from_particle(G,p,jacobi_com)", jc, clib.reb_orbit_from_particle(sim.G, p, jc), []),
+                  ("reb_orbit_from_particle(G,p,particles[0])", ps[0], clib.reb_orbit_from_particle(sim.G, p, ps[0]), [sim.t])]
+        for nme, prim, o, primsim in routes:
+            if prim is None:
+                if idx != 1:
+                    continue          # sim.orbits() accumulates its own centre of mass; for index 1 it is particles[0]
+                prim, primsim = ps[0], [sim.t]
+            prl = [prim.m, prim.x, prim.y, prim.z, prim.vx, prim.vy, prim.vz]
+            R = Rec2(L)
+            R.orbit(sim.G, sim.t, pl, prl)
+            term = "(ofps %s %s %s %s %s %s)" % (R.coq(), H(sim.G), vlib.flist([sim.t]), vlib.flist(primsim), vlib.flist(pl), vlib.flist(prl))
+            cases.append(("orbit_in_sim", term, _orbit_list(o), {"route": nme, "t": sim.t, "mode": mode, "index": idx, "particle": pl, "primary": prl}))
+    return cases
